@@ -828,6 +828,12 @@ def run_limits(case):
             exp_parts.append(rec)
             if isinstance(rec['obs'], list) and rec['obs'][:1] == ['err']:
                 break
+    if case.get('defaults'):
+        # the DOCUMENTED defaults (64 parts, 8192 header bytes, 1 MiB buffered content): nothing is configured
+        if limit != {'count': 64, 'headers': 8192, 'buffer': 1024 * 1024}[which]:
+            raise HarnessError('default-limit case does not sit on the documented default: %r' % (limit,))
+        limits = {}
+        labels.append('documented_default')
     labels.append('expect:' + ('accept' if reject_at is None and len(exp_parts) == n and not any(
         isinstance(r['obs'], list) and r['obs'][:1] == ['err'] for r in exp_parts) else 'reject'))
     plan = {'mode': 'patterns', 'patterns': patterns, 'stop_on_err': which == 'buffer'}
@@ -835,7 +841,7 @@ def run_limits(case):
     for name, fn in REQUEST_TRANSPORTS:
         out = guarded(name, fn, ct, body, tr, plan, limits)
         outs.append(out)
-        ctx = '%s=%d (actual %d) %s' % (list(limits)[0], limit, actual, _ctx(ct, body, tr))
+        ctx = '%s=%d (actual %d) %s' % (list(limits)[0] if limits else 'default limit on ' + which, limit, actual, _ctx(ct, body[:2000], tr))
         if which == 'buffer':
             if out['error'] is not None:
                 raise Violation('limit_buffer', '[%s] form iteration failed with %s (%r); %s'
@@ -881,6 +887,54 @@ class Limits(_C13Suite):
         return run_limits(case)
 
     confirm_hang = staticmethod(_confirm(run_limits, _budget_small))
+
+
+class DefaultLimits(_C13Suite):
+    """Sizes / counts at the DOCUMENTED default limits, with nothing configured: forms of 63 / 64 / 65 / 130 parts (default
+    max_body_part_count 64), a part of 1 MiB - 1 / 1 MiB / 1 MiB + 1 bytes read with get_data() / get_text() (default
+    max_body_part_buffer_size), a header block of 8191 / 8192 / 8193 bytes (default max_body_part_headers_size); WSGI
+    and ASGI.  Accepted at the default, MultipartParseError one past, the parts before the error a correct prefix."""
+
+    name = 'default_limits'
+    exhaustive = True
+    budget = {'quick': 1, 'thorough': 1}
+    case_timeout = 60
+
+    def cases(self, tier):
+        for n in (63, 64, 65, 130):
+            yield {'which': 'count', 'n': n}
+        for d in (-1, 0, 1):
+            for use_text in (False, True):
+                yield {'which': 'buffer', 'd': d, 'use_text': use_text}
+            yield {'which': 'headers', 'd': d}
+
+    def run(self, case):
+        which = case['which']
+        tr = {'short': [0], 'events': [65536], 'preload': True, 'asgi_cl': True}
+        form = {'boundary': 'vf-default-limits', 'quote_boundary': False, 'preamble': None, 'tail': b''}
+        if which == 'count':
+            n = case['n']
+            form['parts'] = [G._p('f%d' % i, b'v%d' % i) for i in range(n)]
+            full = {'form': form, 'which': 'count', 'delta': 64 - n, 'index': 0, 'use_text': False, 'transport': tr, 'defaults': True}
+        elif which == 'buffer':
+            size = 1024 * 1024 + case['d']
+            form['parts'] = [G._p('small', b'first'), G._p('big', b'end', ctype=['text/plain', None], pad=size - 3), G._p('after', b'x')]
+            full = {'form': form, 'which': 'buffer', 'delta': -case['d'], 'index': 1, 'use_text': case['use_text'], 'transport': tr, 'defaults': True}
+        else:
+            part = G._p('h', b'content', extra=[['X-Pad', 'p']])
+            base = len(G.part_header_block(part))
+            part['extra'] = [['X-Pad', 'p' * (1 + 8192 + case['d'] - base)]]
+            form['parts'] = [G._p('small', b'first'), part, G._p('after', b'x')]
+            full = {'form': form, 'which': 'headers', 'delta': -case['d'], 'index': 1, 'use_text': False, 'transport': tr, 'defaults': True}
+        try:
+            info = run_limits(full)
+        except Violation as v:
+            d = v.detail
+            raise Violation(v.kind, '%s ... %s\n  compact case=%r' % (d[:600], d[-200:], case))
+        return Info(True, info.labels)
+
+    confirm_hang = None
+
 
 
 # ------------------------------------------------------------------ corruptions
@@ -1062,7 +1116,7 @@ class HeaderParam(_C13Suite):
     confirm_hang = staticmethod(_confirm(run_header_param, lambda c: 2_000_000))
 
 
-SUITES = [Valid(), ValidBig(), ValidSweep(), CharsetEnum(), Limits(), Corrupt(), CorruptEnum(), HeaderParam()]
+SUITES = [Valid(), ValidBig(), ValidSweep(), CharsetEnum(), Limits(), DefaultLimits(), Corrupt(), CorruptEnum(), HeaderParam()]
 
 
 def _known_f13(suite_name, case, violation):
